@@ -171,3 +171,29 @@ pub const Y1971: i64 = 31_536_000;
 pub fn y9000() -> i64 {
   days_from_civil(9000, 1, 1) * 86400
 }
+
+
+/// Wall-clock settings for the child processes of C11/C12/C13 (label, seconds since the epoch, nanoseconds): calendar
+/// boundaries the real clock of a test run never sits on. All before 2101, so that "now + d" stays inside year 9000.
+pub fn special_clocks(quick: bool) -> Vec<(&'static str, i64, u32)> {
+  let at = |y: i64, m: u32, d: u32, h: i64, mi: i64, s: i64| days_from_civil(y, m, d) * 86400 + h * 3600 + mi * 60 + s;
+  let mut v = vec![
+    ("last-second-of-2026", at(2026, 12, 31, 23, 59, 59), 999_000_000),
+    ("leap-day-2028-end", at(2028, 2, 29, 23, 59, 58), 500_000_000),
+    ("feb-28-2027-end", at(2027, 2, 28, 23, 59, 57), 0),
+    ("2038-rollover-minus", at(2038, 1, 19, 3, 14, 5), 250_000_000),
+    ("zero-nanoseconds", at(2031, 7, 1, 12, 0, 0), 0),
+  ];
+  if !quick {
+    v.extend([
+      ("2038-rollover-plus", at(2038, 1, 19, 3, 14, 9), 1),
+      ("end-of-2099", at(2099, 12, 31, 23, 59, 30), 123_456_789),
+      ("feb-28-2100-not-leap", at(2100, 2, 28, 23, 59, 0), 999_999_999),
+      ("year-2000-leap-day", at(2000, 2, 29, 12, 0, 0), 5),
+      ("epoch-plus-2-years", at(1972, 2, 29, 23, 59, 59), 0),
+      ("midnight-exactly", at(2030, 1, 1, 0, 0, 0), 0),
+      ("month-end-30", at(2029, 4, 30, 23, 59, 59), 999_999_999),
+    ]);
+  }
+  v
+}
